@@ -21,7 +21,7 @@ CONSTANTS
  Aliases = {0}
  InPids = {1}
  ExtraPids = {9}
- Rcs = {0}
+ Rcs = {0, 128}
  Cleans = {FALSE}
  KAs = {0}
  ConnRMs = {99999}
@@ -49,3 +49,4 @@ CONSTANTS
  PeerWhileDisc = FALSE
  LateFrames = FALSE
  CrossVersion = FALSE
+ Restore = FALSE
